@@ -416,6 +416,12 @@ impl Allocator for Arena {
       return true;
     }
 
+    // the range is not below the cursor: the ARENA was cleared or rewound after the range was handed out,
+    // there is nothing to give back.
+    if offset + size > header.allocated {
+      return false;
+    }
+
     match self.freelist {
       Freelist::None => {
         self.increase_discarded(size);
